@@ -20,7 +20,7 @@
 (***************************************************************************)
 EXTENDS Integers, Sequences, FiniteSets, TLC, Json
 
-CONSTANT Mode    \* "kinds" | "units" | "weights" | "dependent"
+CONSTANT Mode    \* "kinds" | "units" | "weights" | "dependent" | "custom"
 
 VARIABLES kinds, inh, cache, phase
 vars == <<kinds, inh, cache, phase>>
@@ -98,14 +98,30 @@ ComputedLineWidth(st, w) == IF st \in {"none", "hidden"} THEN 0 ELSE w
 \* bleed: auto computes to 6pt (8px) if marks has crop, to 0 otherwise (CSS Paged Media 3, 7.3)
 MarksVals == {"none", "crop", "cross", "crop cross"}
 ComputedBleed381(m) == IF m \in {"crop", "crop cross"} THEN 6 * 508 ELSE 0
+LineHeight381(fs, lh) == CASE lh = "40px" -> 40 * 381 [] lh = "2" -> 2 * fs * 381 [] OTHER -> (3 * fs * 381) \div 2
 DependentScn == {[k |-> "display", d |-> d, c |-> c, wantd |-> ComputedDisplay(d, c), wantf |-> ComputedFloat(c)] : d \in Displays, c \in Contexts}
           \cup {[k |-> "line", p |-> p, st |-> st, w |-> w, want |-> ComputedLineWidth(st, w)] : p \in {"border-top", "border-left", "outline", "column-rule"}, st \in LineStyles, w \in {0, 5}}
           \cup {[k |-> "bleed", m |-> m, want381 |-> ComputedBleed381(m)] : m \in MarksVals}
+          \* a percentage vertical-align refers to the line-height of the element itself (CSS 2.1 10.8.1); line-height: a
+          \* length, a number (times the font size) or a percentage of the font size
+          \cup {[k |-> "valign", fs |-> fs, lh |-> lh, pc |-> pc, want381 |-> (LineHeight381(fs, lh) * pc) \div 100] :
+                   fs \in {10, 20}, lh \in {"40px", "2", "150%"}, pc \in {50, -25, 100}}
 \* blockification keeps the inner display type and the list-item flag, and is idempotent
 BlockifyLaws == \A d \in Displays \ {"none"} : /\ Blockified(d) \in {Canon(e) : e \in Displays} \cup {"block flow-root"}
                                                /\ (d \in {"block", "list-item", "table", "flex", "grid"} => Blockified(d) = Canon(d))
 
+\* ---- custom properties (mode "custom"): inherited properties whose value is visible on the declaring element and its
+\* descendants only. Tree: 1 body > 2 p, 3 p (siblings); 2 > 4 span. `decl`: the nodes that declare --x (each with its own
+\* value, named after the node); `order`: the order in which the styles of the four nodes are asked for.
+CTree == <<0, 1, 1, 2>>                      \* parent of each node
+RECURSIVE Visible(_, _)
+Visible(DS, n) == IF n \in DS THEN n ELSE IF CTree[n] = 0 THEN 0 ELSE Visible(DS, CTree[n])      \* 0: the fallback of var()
+CustomScn == {[decl |-> DS, order |-> o, want |-> [n \in 1..4 |-> Visible(DS, n)]] :
+                 DS \in SUBSET (1..4), o \in {q \in [1..4 -> 1..4] : \A i, j \in 1..4 : i # j => q[i] # q[j]}}
+\* a declaration is never visible outside the sub-tree of its element
+Scoped == Mode = "custom" => \A n \in 1..4 : kinds.want[n] # 0 => (kinds.want[n] = n \/ kinds.want[n] = CTree[n] \/ kinds.want[n] = CTree[CTree[n]])
 Init == /\ CASE Mode = "units" -> kinds \in UnitScn /\ inh = TRUE
+             [] Mode = "custom" -> kinds \in CustomScn /\ inh = TRUE
              [] Mode = "dependent" -> kinds \in DependentScn /\ inh = TRUE
              [] Mode = "weights" -> kinds \in WeightScn /\ inh = TRUE
              [] OTHER -> kinds \in [Nodes -> Kinds] /\ inh \in BOOLEAN
@@ -204,6 +220,7 @@ EmitScn == phase = "done" =>
                                            lh381 |-> (3 * MidFs(kinds)) \div 2]))
   ELSE IF Mode = "weights" THEN PrintT(ToJson([mode |-> "weights", scn |-> kinds, weight |-> LeafWeight(kinds)]))
   ELSE IF Mode = "dependent" THEN PrintT(ToJson([mode |-> "dependent", dep |-> kinds]))
+  ELSE IF Mode = "custom" THEN PrintT(ToJson([mode |-> "custom", custom |-> [decl |-> [n \in 1..4 |-> n \in kinds.decl], order |-> kinds.order, want |-> kinds.want]]))
   ELSE PrintT(ToJson([mode |-> "kinds", kinds |-> kinds, inh |-> inh, want |-> [n \in Nodes |-> Computed(kinds, inh, n)]]))
 \* the CSS property index data, printed once
 EmitMeta == (Mode = "kinds" /\ phase = "done" /\ ~inh /\ \A n \in Nodes : kinds[n] = "none") =>
